@@ -17,6 +17,7 @@ mod mon_c18;
 mod mon_c20;
 mod rng;
 mod stubs;
+mod world;
 
 use rng::Rng;
 
@@ -67,6 +68,13 @@ fn main() {
                 writeln!(w, "@{}", l).unwrap();
             }
         }
+        "world-selftest" => match world::selftest() {
+            Ok(()) => {}
+            Err(e) => {
+                eprintln!("{}", e);
+                std::process::exit(1);
+            }
+        },
         "monitor" => {
             let prop = args[2].as_str();
             let seed: u64 = args[3].parse().unwrap();
